@@ -63,3 +63,14 @@ def rerun(path, repo):
         return 1 if rc != 0 else 0
     import replay_search
     return replay_search.rerun(wit, repo)
+
+
+def write_bounded(prop, wit, k):
+    os.makedirs(os.path.join(VERIF, 'replays'), exist_ok=True)
+    path = os.path.join(VERIF, 'replays', '%s-bounded-%d.json' % (prop, k))
+    doc = dict(property=prop, obligation='bounded.%s.interpreter_grid' % prop, kind='bounded', verifier='none (bounded stand-in on the real code)',
+               verifier_message='the real interpreter disagrees with the reference semantics on a concrete input',
+               failing_input=wit)
+    with open(path, 'w') as fh:
+        json.dump(doc, fh, indent=1)
+    return path
